@@ -2,20 +2,22 @@
 # usage: refbattery.sh <logfile> [R1 R2 ...] - apply each behaviour-preserving refactoring (seeded/benign/<R>/patch.diff) to a
 # scratch worktree of /repo's head and run all checks against it (3 in parallel); every check must exit 0
 log=$1; shift
-ids=${@:-$(ls /verif/seeded/benign | grep '^R' | sort -V)}
+V=${VERIF_ROOT:-/verif}
+export V
+ids=${@:-$(ls $V/seeded/benign | grep -E '^R[0-9]+$' | sort -V)}
 : > $log
 mkdir -p /tmp/refwt
 run_one() {
   r=$1; wt=/tmp/refwt/$r
   git -C /repo worktree remove --force $wt 2>/dev/null; rm -rf $wt
   git -C /repo worktree add -q --detach $wt HEAD || { echo "REFACTOR $r => worktree failed"; return; }
-  git -C $wt apply /verif/seeded/benign/$r/patch.diff || { echo "REFACTOR $r => patch does not apply"; git -C /repo worktree remove --force $wt; return; }
-  /verif/tools/refcheck.sh $wt 2>&1 | grep -v "^WARNING" | tail -6
+  git -C $wt apply $V/seeded/benign/$r/patch.diff || { echo "REFACTOR $r => patch does not apply"; git -C /repo worktree remove --force $wt; return; }
+  $V/tools/refcheck.sh $wt 2>&1 | grep -v "^WARNING" | tail -6
   git -C /repo worktree remove --force $wt
   tag=$(python3 -c "import hashlib,sys;print(hashlib.sha1(sys.argv[1].encode()).hexdigest()[:8])" $wt)
-  rm -rf /verif/.cache/*-$tag /verif/.cache/*-$tag-* 2>/dev/null
+  rm -rf $V/.cache/*-$tag $V/.cache/*-$tag-* 2>/dev/null
 }
 export -f run_one
-printf '%s\n' $ids | xargs -P 3 -I{} bash -c 'run_one {}' >> $log 2>&1
+printf '%s\n' $ids | xargs -P ${REF_P:-3} -I{} bash -c 'run_one {}' >> $log 2>&1
 rm -rf /tmp/refrun
 echo REFBATTERY-DONE >> $log
